@@ -729,6 +729,9 @@ func (c *fctx) call(x *ast.CallExpr) string {
 				k := c.errN
 				c.errN++
 				msg, _ := c.fi.Pkg.constString(x.Args[0])
+				if strings.Contains(msg, "%w") {
+					c.fail(x, "an error that wraps another (%%w): wrapping is not modelled")
+				}
 				c.sites = append(c.sites, fmt.Sprintf("error site %d (line %d): %q", k, c.t.pr.line(x.Pos()), msg))
 				var ints []string
 				if c.spec != nil && c.spec.errInts {
